@@ -241,8 +241,15 @@ func (ss *SourceConf) applyAux(aux *auxSourceConf) (err error) {
 		}
 		patterns = append(patterns, p)
 	}
-	ss.Include = patterns[0:len(aux.Include)]
-	ss.Ignore = patterns[len(aux.Include):]
+	// Leave a list that wasn't given nil (not empty) so that it is inherited
+	ss.Include = nil
+	ss.Ignore = nil
+	if len(aux.Include) > 0 {
+		ss.Include = patterns[0:len(aux.Include)]
+	}
+	if len(aux.Ignore) > 0 {
+		ss.Ignore = patterns[len(aux.Include):]
+	}
 	if aux.ErrorBackoff != "" {
 		ss.ErrorBackoff, err = strconv.ParseFloat(aux.ErrorBackoff, 64)
 		ss.isErrorBackoffSet = true
